@@ -191,6 +191,13 @@ def r3_neutrality(ctx):
             ctx.ob(rule, s['function'], s['instance'], s['ok'], found=s['found'], expected=s['expected'],
                    why='whatever the search returns, the caller\'s board must be observably identical before and after')
     ctx.floor(rule, 'bracketed functions in the search call graph', n, 3)
+    # ... and nothing in the search call graph changes board state outside those brackets: a registration of the root position that one
+    # return path forgets to take back leaves the caller's board (its occurrence table) changed although an error was returned
+    sreach = facts.reachable_fns([SEARCH] + [c.name for c in facts.closures_of(SEARCH)])
+    import_rules(ctx, rule, [c04.r4_raw_mutators],
+                 'whatever the search returns - a move or a declared error - the caller\'s board must be observably identical before and after: '
+                 'state changed through a raw mutator has no undo registered on the paths that return early',
+                 keep=lambda s: s['function'] in sreach or 'floor' in s['instance'], floor=1)
     # the root closure only touches clones: it captures the board by shared reference
     clo = facts.fns.get(SEARCH + '::{closure#0}')
     if clo is not None:
